@@ -573,3 +573,70 @@ def numfmt_suite(ctx, count):
             got = 'ok ' + ' '.join(enc_str(s) for s in ('{:.8f}'.format(x), '{:.5e}'.format(x)))
             cases.append(('numfmt', f'numfmt_fe {k}', got, {'k': k, 'x': repr(x)}))
     return cases
+
+
+def read_params_model_cases(ctx, count):
+    """the real `read_params` on in-memory configs next to its Lean model (Config.lean, op `read_params`): the
+    unary table in insertion order, the seen-rule set, the root categories and the dictionary are read off
+    the objects the program would parse with (`functools.partial` keywords); configs with repeated keys,
+    repeated pairs, an empty seen list, strings that do not parse, both disable flags"""
+    import wire
+    from wire import enc_str, enc_cat
+    rng = ctx.rng
+    cases = []
+    broken = ['NP[', '(S\\NP', 'S[dcl]]', '', 'a b', '((', 'S/', 'NP)']
+    for k in range(count):
+        lang = 'ja' if k % 3 == 2 else 'en'
+        config = synthetic_config(rng, lang)
+        if k % 4 == 1:
+            config['seen_rules'] = []
+        if k % 4 == 2:
+            config['seen_rules'] = config['seen_rules'][:5] * 2
+            config['unary_rules'] = config['unary_rules'] + config['unary_rules'][:3]
+        if k % 5 == 3:
+            # one string that is not a category, somewhere
+            part = rng.choice(['unary_rules', 'seen_rules', 'targets', 'cat_dict'])
+            bad = rng.choice(broken)
+            if part == 'targets':
+                config['targets'] = list(config['targets'])
+                config['targets'][rng.randrange(len(config['targets']))] = bad
+            elif part == 'cat_dict':
+                config['cat_dict'] = dict(config['cat_dict'], zz=['NP', bad])
+            else:
+                lst = [list(p) for p in config[part]]
+                if lst:
+                    lst[rng.randrange(len(lst))][rng.randrange(2)] = bad
+                config[part] = lst
+        dd, ds = rng.random() < 0.25, rng.random() < 0.25
+        desc = {'lang': lang, 'disable_dict': dd, 'disable_seen': ds, 'seen_rules': config['seen_rules'][:30],
+                'unary_rules': config['unary_rules'][:30], 'targets': config['targets'][:10], 'cat_dict': config['cat_dict']}
+        try:
+            binary, unary, cat_dict, roots = call_read_params(lang, config, disable_category_dictionary=dd, disable_seen_rules=ds)
+            table = unary.keywords['unary_rules']
+            seen = binary.keywords['seen_rules']
+            got = 'ok T ' + str(len(table)) + ''.join(
+                ' ; ' + enc_cat(key) + ' -> ' + str(len(vs)) + ''.join(' , ' + enc_cat(v) for v in vs) for key, vs in table.items())
+            if seen is None:
+                got += ' | S none'
+            else:
+                items = sorted({enc_cat(a) + ' , ' + enc_cat(b) for a, b in seen})
+                got += ' | S some ' + str(len(items)) + ''.join(' ; ' + i for i in items)
+            got += ' | R ' + str(len(roots)) + ''.join(' ; ' + enc_cat(c) for c in roots)
+            if cat_dict is None:
+                got += ' | D none'
+            else:
+                got += ' | D some ' + str(len(cat_dict)) + ''.join(
+                    ' ; ' + enc_str(w) + ' ' + str(len(cs)) + ''.join(' , ' + enc_cat(c) for c in cs) for w, cs in cat_dict.items())
+        except wire.Garbage:
+            continue
+        except Exception as e:
+            got = 'err ' + wire.err_name(e)
+        ctx.evaluations += 1
+        ctx.nontrivial_add(('read_params', k, lang, dd, ds, len(config['seen_rules'])))
+        line = (f'read_params {int(dd)} {int(ds)} {len(config["unary_rules"])} ' + ' '.join(enc_str(a) + ' ' + enc_str(b) for a, b in config['unary_rules'])
+                + f' {len(config["seen_rules"])} ' + ' '.join(enc_str(a) + ' ' + enc_str(b) for a, b in config['seen_rules'])
+                + f' {len(config["targets"])} ' + ' '.join(enc_str(t) for t in config['targets'])
+                + f' {len(config["cat_dict"])} ' + ' '.join(enc_str(w) + f' {len(cs)} ' + ' '.join(enc_str(c) for c in cs) for w, cs in config['cat_dict'].items()))
+        line = ' '.join(line.split())
+        cases.append(('read_params', line, got, desc))
+    return cases
